@@ -40,8 +40,8 @@ class B1Result:
         self.notes = []
 
 
-def compile_goto(cfile, outdir, entry, defines, incs):
-    gb = os.path.join(outdir, os.path.basename(cfile)[:-2] + '.gb')
+def compile_goto(cfile, outdir, entry, defines, incs, suffix=''):
+    gb = os.path.join(outdir, os.path.basename(cfile)[:-2] + suffix + '.gb')
     cmd = ['goto-cc', '-DVP_CBMC'] + ['-D' + d for d in defines] + ['-I' + i for i in incs] + ['--function', entry, cfile, '-o', gb]
     r = _run(cmd, 120)
     return gb, r
@@ -72,6 +72,8 @@ def parse_json_out(txt):
     for item in arr:
         if 'result' in item:
             res['props'] = item['result']
+        if 'property' in item and 'status' in item:      # --stop-on-fail prints the failed property on its own
+            res['props'].append(item)
         if 'cProverStatus' in item:
             res['status'] = item['cProverStatus']
         if 'messageText' in item:
@@ -102,33 +104,37 @@ def run_cbmc(igb, solver, timeout, extra=(), trace=True, object_bits=12, checks=
     return r
 
 
-def portfolio(igb, solvers, timeout, need_all=False, extra=(), object_bits=12, checks=True):
-    """run solvers in parallel; first definitive answer wins (quick) or all must agree (thorough)"""
+def portfolio(members, timeout, need_all=False, object_bits=12):
+    """members: dicts(label, igb, solver, extra, sof).  Runs all in parallel.  Finished when a full member
+    gives a definitive answer (quick) / all full members answered (thorough), or a stop-on-fail member
+    reports a failure."""
     results = {}
-    procs = {}
     lock = threading.Lock()
     done = threading.Event()
+    full = [m for m in members if not m.get('sof')]
 
-    def work(s):
-        r = run_cbmc(igb, s, timeout, extra=extra, object_bits=object_bits, checks=checks)
+    def work(m):
+        r = run_cbmc(m['igb'], m['solver'], timeout, extra=m.get('extra', ()), object_bits=object_bits)
         with lock:
-            results[s] = r
-            if r['parsed'] is not None and r['parsed']['status'] in ('success', 'failure') and not need_all:
+            results[m['label']] = r
+            ok = r['parsed'] is not None and r['parsed']['status'] in ('success', 'failure')
+            if m.get('sof'):
+                if ok and r['parsed']['status'] == 'failure':
+                    done.set()
+            elif ok and not need_all:
                 done.set()
-            if len(results) == len(solvers):
+            if all(x['label'] in results for x in (full if need_all else members)):
                 done.set()
-    ths = [threading.Thread(target=work, args=(s,), daemon=True) for s in solvers]
+            if need_all and all(x['label'] in results for x in full):
+                done.set()
+    ths = [threading.Thread(target=work, args=(m,), daemon=True) for m in members]
     for t in ths:
         t.start()
     done.wait()
-    if need_all:
-        for t in ths:
-            t.join()
-    else:
-        # kill the losers
-        kill_children_matching(igb)
-        for t in ths:
-            t.join(timeout=10)
+    for m in members:
+        kill_children_matching(m['igb'])
+    for t in ths:
+        t.join(timeout=10)
     return results
 
 
